@@ -476,16 +476,33 @@ def r5_quantities(ctx):
                         ok = True
         uses_range = any(isinstance(x, ast.Constant) and x.value == 'range' for x in ast.walk(f.node)) and any(isinstance(x, ast.Constant) and x.value == 'chunks' for x in ast.walk(f.node))
         ctx.check(ok and uses_range, 'C15.R5', f'{func_label(f)}|size-is-sum-of-range-lengths', loc(f, f.node), f"{nm}: size = sum(r[1] - r[0]) over the record's chunk ranges", f'{nm}: size is not the sum of (end - start) over the listed record\'s chunk ranges')
+    # counts: the cell of the count columns is len(<record>[key]) (or the falsy record itself for a foreign snapshot),
+    # judged on the value the column getter returns, wherever the computation lives
     shapes = {
-        '_extract_snapshot_file_count': ('len', 'files'),
-        '_format_file_chunk_count': ('len', 'chunks'),
+        '_format_snapshot_file_count': 'files',
+        '_format_file_chunk_count': 'chunks',
     }
-    for nm, (fn_, key) in shapes.items():
+    for nm, key in shapes.items():
         f = corpus.method(cls, nm)
         if f is None:
             raise AnalysisError(f'C15.R5: {nm} missing')
-        ok = any(dotted(c.func) == fn_ and c.args and isinstance(c.args[0], ast.Subscript) and isinstance(c.args[0].slice, ast.Constant) and c.args[0].slice.value == key for c in calls_in(f.node)) and len(list(calls_in(f.node))) == 1
-        ctx.check(ok, 'C15.R5', f'{func_label(f)}|count-is-len', loc(f, f.node), f"{nm}: {fn_}(record['{key}'])", f'{nm} no longer returns {fn_}(record[{key!r}])')
+        ctx.analysed(f)
+        r = strip_sites(Evaluator(corpus, depth=3).run(f))
+
+        def leaves(t):
+            if t[0] == 'alt':
+                for x in t[1]:
+                    yield from leaves(x)
+            elif t[0] == 'bool':
+                for x in t[2]:
+                    yield from leaves(x)
+            else:
+                yield t
+
+        lv = list(leaves(r))
+        is_len = lambda t: t[0] == 'call' and t[1] == ('name', 'len') and len(t[2]) == 1 and t[2][0][0] == 'sub' and t[2][0][1][0] == 'param' and t[2][0][2] == ('const', key)
+        ok = any(is_len(t) for t in lv) and all(is_len(t) or t[0] == 'param' or t == ('const', None) for t in lv)
+        ctx.check(ok, 'C15.R5', f'{func_label(f)}|count-is-len', loc(f, f.node), f"{nm}: len(record['{key}'])", f'{nm} no longer returns len(record[{key!r}]): {show(r, limit=120)}')
     # getters read only their own arguments
     getters = [m for m in cls.methods.values() if m.name.startswith(('_format_file_', '_format_snapshot_', '_format_snaphot_', '_extract_snapshot_'))]
     ctx.floor('C15.R5', 'column getters', len(getters), 12)
